@@ -72,6 +72,24 @@ GoChecks(e) ==
       C03_one_legal_bestmove |-> IsGoAnswer(Lines(e), board),
       C13_same_commands_same_answer |-> (pure /\ ~TimeLimited(e)) => \A x \in memo : x[1] = key => x[2] = Lines(e)]
 
+\* The shape of the info lines of a depth-limited search as the code prints them today (src/timer.rs print_info,
+\* src/search.rs find_best_move): one line per completed iteration, depths 1, 2, ..., node counts cumulative, the
+\* principal move legal, and the last one equal to the bestmove.  No listed property prescribes this: a mismatch
+\* is printed as DRIFT (no verdict).
+InfoGrammar(e) ==
+  LET o == Lines(e)
+      infos == SelectSeq(o, LAMBDA x : x.t = "info")
+      n == Len(infos)
+      lt == LegalTexts(board)
+  IN (~TimeLimited(e) /\ e.go.depth >= 1 /\ lt # {} /\ Len(o) >= 1 /\ o[Len(o)].t = "bestmove") =>
+       /\ n = (IF e.go.depth > 64 THEN 64 ELSE e.go.depth)
+       /\ \A i \in 1..n : /\ "depth" \in DOMAIN infos[i] /\ infos[i].depth = i
+                          /\ "nodes" \in DOMAIN infos[i] /\ infos[i].nodes >= 1
+                          /\ "score" \in DOMAIN infos[i]
+                          /\ ("pv" \in DOMAIN infos[i] /\ infos[i].pv # <<>>) => infos[i].pv[1] \in lt
+       /\ \A i \in 1..(n - 1) : infos[i].nodes <= infos[i + 1].nodes
+       /\ (n >= 1 /\ "pv" \in DOMAIN infos[n] /\ infos[n].pv # <<>>) => infos[n].pv[1] = o[Len(o)].move
+
 ChecksOf(e) == CASE CmdKind(e) = "uci" -> HandshakeChecks(e)
                  [] CmdKind(e) = "isready" -> ReadyChecks(e)
                  [] CmdKind(e) = "unknown" -> UnknownChecks(e)
@@ -90,6 +108,7 @@ TCmd == /\ IsEvent("cmd")
                 [] CmdKind(e) = "ucinewgame" -> CmdNewGame(Lines(e)) /\ pure' = TRUE /\ UNCHANGED memo
                 [] CmdKind(e) = "position" -> CmdPosition(StartOf(e), MovesOf(StartOf(e), e.moves), Lines(e)) /\ UNCHANGED <<pure, memo>>
                 [] CmdKind(e) = "go" -> /\ CmdGo(Lines(e))
+                                     /\ (IF InfoGrammar(e) THEN TRUE ELSE PrintT(<<"DRIFT", l, "info lines", e.text>>))
                                      /\ pure' = (pure /\ ~TimeLimited(e))
                                      /\ memo' = IF pure /\ ~TimeLimited(e) THEN memo \cup {<<Append(norm, e.text), Lines(e)>>} ELSE memo
            /\ norm' = IF CmdKind(e) = "ucinewgame" THEN <<>> ELSE Append(norm, e.text)
